@@ -12,6 +12,21 @@ def plan(ex, tier, first):
 
 
 def run(tier, seed, ev):
-    return tcommon.generic_run(PROP, tier, seed, ev, plan, [
-        "tempfile::NamedTempFile::new_in creates a fresh, exclusively created name and unlinks it on drop (crate contract)"],
+    import mirrun
+    import sprop
+    rc1 = tcommon.generic_run(PROP, tier, seed, ev, plan, [
+        "tempfile::NamedTempFile::new_in creates a fresh, exclusively created name and unlinks it on drop (crate contract)",
+        "interleavings: a commit that ABORTS after registering its intent (one injected failure of the rename into cas/) while another "
+        "commit on the same key is in flight: the abort reverts only its own intent - no dangling reference at any instant, no intent left "
+        "behind or taken away when all calls have returned"],
         Ns_thorough=(2,))
+    with mirrun.mir_executor(PROP + "s") as (ex, scr, mir_s):
+        plans = [(("put", "put"), 1, 2, dict(faults=1))]
+        if tier == "thorough":
+            plans.append((("put", "put"), 2, 2, dict(faults=1)))
+        # D4 (two successful puts on one key clobber each other's intent) is C04's known finding, not an aborted transaction
+        rc2 = sprop.run_s(PROP, tier, seed, ev, ex, plans, accept=lambda role: role != "same_key_intent_clobber")
+        ev.bounds["interleavings"] = ("put||put on one key (thorough: two keys), hash universe 2, at most one injected failure at the rename into cas/; "
+                                      "arbitrary initial index and blob set; quiet log stretch")
+        ev.functions.append("threads: Transaction::commit x2 incl. IntentGuard::drop on the error path - full MIR, interleaved")
+    return tcommon.best(rc1, rc2)
